@@ -1,5 +1,6 @@
 import DuneVerif.Proofs.C07Ext
 import DuneVerif.Proofs.C07Reg
+import DuneVerif.Proofs.C07View
 import DuneVerif.Gen.C07
 /-!
 # C07 — property theorems (statements only; the lemmas live in `Proofs/C07.lean`)
@@ -620,6 +621,33 @@ theorem allreduce_full {α} (e n : Nat) (op : List α → List α → List α)
 
 example : Spec.allreduce 1 2 (zipOp (· + ·)) [[1, 2], [10, 20], [100, 200]] [[0, 0], [0, 0], [0, 0]]
     = List.replicate 3 [111, 222] := by decide
+
+/-! ### R3: container views of the MPIData-based reductions (`allreduce(Type&&)`, `iallreduce`)
+
+`MPIData` hands MPI the *entries* of a `std::vector<T>`, a `DynamicVector<K>`, a `FieldVector<K,n>` (element type `T` /
+`K`), so after `fixes/C07_reduce_container_op.patch` the functor is applied to the entries.  For a functor that acts
+cell by cell this is the same reduction as the one over the whole objects. -/
+
+/-- **allreduce_cellwise.**  With a functor that acts cell by cell (`zipWith f`: `std::plus`, `Min`, `Max`, … on
+arithmetic entries) cell `j*e+i` of the result is the fold, in rank order, of the ranks' cells `j*e+i`. -/
+theorem allreduce_cellwise {α} (f : α → α → α) (e n : Nat) (ins : List (List α)) (hne : ins ≠ [])
+    (hl : ∀ x ∈ ins, x.length = n * e) (j i : Nat) (hj : j < n) (hi : i < e) :
+    (Spec.allreduceVal e n (List.zipWith f) ins)[j * e + i]? = Spec.foldCells f (ins.map (·[j * e + i]?)) :=
+  Proofs.allreduceVal_cell f e n ins hne hl j i hj hi
+
+/-- **allreduce_container_view.**  Hence the grouping of the cells into elements does not matter: reducing `n` objects
+of `e` entries with the entry-wise functor (`allreduce<std::plus<FieldVector<int,3>>>(FieldVector<int,3>*, …, n)`) and
+reducing their `n*e` entries with the functor on the entries (`allreduce<std::plus<int>>(FieldVector<int,3>&&)`,
+MPIData's view of the object as a container) give the same result, for every process count. -/
+theorem allreduce_container_view {α} (f : α → α → α) (e n : Nat) (ins : List (List α)) (hne : ins ≠ [])
+    (hl : ∀ x ∈ ins, x.length = n * e) :
+    Spec.allreduceVal e n (List.zipWith f) ins = Spec.allreduceVal 1 (n * e) (List.zipWith f) ins :=
+  Proofs.allreduceVal_view f e n ins hne hl
+
+-- three ranks, one FieldVector<int,3> each: whole-object sum = entry-wise sum of the 3 entries; cell 1 folds 20, 21, 22
+example : Spec.allreduceVal 3 1 (List.zipWith (· + ·)) [[10, 20, 30], [11, 21, 31], [12, 22, 32]] = [(33 : Int), 63, 93]
+    ∧ Spec.allreduceVal 1 3 (List.zipWith (· + ·)) [[10, 20, 30], [11, 21, 31], [12, 22, 32]] = [(33 : Int), 63, 93]
+    ∧ Spec.foldCells (· + ·) ([[10, 20, 30], [11, 21, 31], [(12 : Int), 22, 32]].map (·[1]?)) = some (63 : Int) := by decide
 
 /-! ### the stand-in, once more: partially communicated types per collective, and the tie to communication.hh -/
 
